@@ -299,5 +299,8 @@ func init() {
 	genql.RegisterFunction("vf_tag2", vfTag)
 	genql.RegisterFunction("vf_tag3", vfTag)
 	genql.RegisterImmediateFunction("vf_imm", vfImm)
+	// names registered in the spelling of the documentation (camel case) and in upper case
+	genql.RegisterImmediateFunction("vfImmCamel", vfImm)
+	genql.RegisterImmediateFunction("VF_IMM_UPPER", vfImm)
 	injReset(0, 0)
 }
